@@ -539,6 +539,11 @@ impl<'de> Visitor<'de> for IDLValueVisitor {
             _ => Err(de::Error::custom("unknown tag in visit_byte_buf")),
         }
     }
+    // The deserializer delivers the key of a skipped record field as bytes; it is
+    // never a real label, which always arrives as a string or a number.
+    fn visit_bytes<E>(self, _value: &[u8]) -> DResult<E> {
+        Ok(IDLValue::Reserved)
+    }
     fn visit_string<E>(self, value: String) -> DResult<E> {
         Ok(IDLValue::Text(value))
     }
@@ -579,7 +584,8 @@ impl<'de> Visitor<'de> for IDLValueVisitor {
         while let Some((key, value)) = visitor.next_entry()? {
             let id = match key {
                 IDLValue::Nat32(hash) => Label::Id(hash),
-                IDLValue::Text(name) if name == "_" => continue,
+                // key of a wire field that is not in the expected type (see visit_bytes)
+                IDLValue::Reserved => continue,
                 IDLValue::Text(name) => Label::Named(name),
                 _ => unreachable!(),
             };
